@@ -3,8 +3,15 @@
 //! note: manager side of chain events (channel.rs): the number of confirmations of the funding transaction is a function of the best height and the confirmation height alone; a best block below the confirmation height forgets the confirmation entirely (height, block hash, short channel id) and any other height leaves it untouched; transaction_unconfirmed reports exactly such a height
 //! trusted: R15 (deep slices): do_best_block_updated: the block "Check if the funding transaction was unconfirmed" (three reads, the confirmation count, the reset) verbatim as a method of a FundingScope skeleton {funding_tx_confirmation_height, short_channel_id, funding_tx_confirmed_in}; transaction_unconfirmed: the expression of the height handed to do_best_block_updated; FundingScope::get_funding_tx_confirmations is extracted whole; holding-cell time-outs of the same function are in unit u02; channel_ready / splice handling and the close decision are dropped and not claimed
 //! trusted: R7: `x.checked_sub(y).map_or(0, |c| c + 1)` is written as a match on the checked_sub (std semantics of Option::map_or) -- Verus gives closures no specification
+//! trusted: assume_specification for core::cmp::max / core::cmp::min (std definitions): present in every unit so that a change that introduces them is verified instead of being rejected by the tool
 use vstd::prelude::*;
 verus! {
+use vstd::std_specs::cmp::*;
+use core::cmp;
+pub assume_specification<T: core::cmp::Ord>[core::cmp::max::<T>](a: T, b: T) -> (r: T)
+    ensures T::obeys_cmp_spec() ==> r == (if b.cmp_spec(&a) == core::cmp::Ordering::Less { a } else { b });
+pub assume_specification<T: core::cmp::Ord>[core::cmp::min::<T>](a: T, b: T) -> (r: T)
+    ensures T::obeys_cmp_spec() ==> r == (if b.cmp_spec(&a) == core::cmp::Ordering::Less { b } else { a });
 #[derive(Clone, Copy)] pub struct BlockHash(pub u64);
 pub struct FundingScope { pub funding_tx_confirmation_height: u32, pub short_channel_id: Option<u64>, pub funding_tx_confirmed_in: Option<BlockHash> }
 pub open spec fn confirmations_spec(conf_height: u32, best_height: u32) -> int {
